@@ -747,12 +747,17 @@ def run(ctx):
     ctx.attempt(r117, ctx)
     ctx.rule("R-11.8", "QuanTIS swap: a propagation that used up its frame budget yields a pasted path for which the rejecting length test fires (prefix + budget - shared frame vs the limit, linear arithmetic)", floor=2)
     ctx.attempt(r118, ctx)
+    ctx.rule("R-11.9", "the potential energies the QuanTIS rule reads from stored frames are the ones that were written: energy.txt columns reach update_energies in its parameter order (shared with C14 R-14.2)", floor=3)
+    from . import c14 as _c14
+    from .shared import RuleProxy as _RP2
+    ctx.attempt(_c14.r142, _RP2(ctx, "R-11.9", " (for paths reloaded at a restart the QuanTIS energy differences are computed from kinetic energies: the swap is not accepted with min(1, exp(beta0*dV0 - beta1*dV1)))"))
     from . import c19
     from .shared import RuleProxy
     ctx.attempt(c19.r195, RuleProxy(ctx, "R-11.5", " (a zero swap re-uses stored velocities in the opposite time direction: swapping twice would not restore the order-parameter sequence)"))
 
 
 VARIANTS = [
+    B("c11-loaded-energies-swapped", "infretis/classes/path.py", '                energy["data"]["ekin"], energy["data"]["vpot"]', '                energy["data"]["vpot"], energy["data"]["ekin"]', "R-11.9", control=True, why="seeded C11_h (= C06_d)"),
     B("c11-quantis-forward-budget-one-short", TIS, "    new_path1 = tmp_path1.empty_path(maxlen=maxlen1 - 1)", "    new_path1 = tmp_path1.empty_path(maxlen=maxlen1 - tmp_path1.length)", "R-11.8", control=True, why="seeded C11_g"),
     B("c11-quantis-backward-budget-short", TIS, "    new_path0 = tmp_path0.empty_path(maxlen=maxlen0 - 1)", "    new_path0 = tmp_path0.empty_path(maxlen=maxlen0 - 2)", "R-11.8"),
     K("c11-keep-quantis-budget-respelled", TIS, "    new_path1 = tmp_path1.empty_path(maxlen=maxlen1 - 1)", "    new_path1 = tmp_path1.empty_path(maxlen=maxlen1 - tmp_path1.length + 1)"),
